@@ -1,0 +1,100 @@
+//go:build verif
+// +build verif
+
+// Contracts for package context (comments only; read by the deductive verifier in /verif).
+
+package context
+
+//@ define ctx_ok(c) = c != nil && c.prec >= 1 && c.prec <= 1000000000 && c.mode <= 5
+
+//@ func setPrec(prec uint) uint32
+//@   pure
+//@   ensures[value,C19] result == (prec == 0 ? 34 : prec > 4294967295 ? 4294967295 : prec)
+
+//@ func (c *Context) SetPrec(prec uint) *Context
+//@   requires[wf] c != nil
+//@   modifies c.prec
+//@   ensures[value,C19] result == c && c.prec == (prec == 0 ? 34 : prec > 4294967295 ? 4294967295 : prec)
+
+//@ func (c *Context) SetMode(mode decimal.RoundingMode) *Context
+//@   requires[wf] c != nil
+//@   modifies c.mode
+//@   ensures[value,C19] result == c && c.mode == mode
+
+//@ func (c *Context) Err() (err error)
+//@   requires[wf] c != nil
+//@   modifies c.err
+//@   ensures[once,C19] err == old(c.err) && c.err == nil
+
+//@ func (c *Context) apply(z *decimal.Decimal) *decimal.Decimal
+//@   requires[wf] ctx_ok(c) && z != nil && valid(z)
+//@   modifies z.mode, z.prec, z.acc, z.form, z.exp, z.mant, mem(z.mant)
+//@   ensures[result] result == z
+//@   ensures[attrs,C19] z.prec == c.prec && z.mode == c.mode
+//@   ensures[special,C19] old(z.form) != finite ==> z.form == old(z.form)
+//@   ensures[neg,C19] z.neg == old(z.neg)
+//@   ensures[valid,C08,C19] valid(z)
+//@   ensures[buffer,C18] z.mant.arr == old(z.mant.arr) && z.mant.off == old(z.mant.off) && cap(z.mant) == old(cap(z.mant)) && len(z.mant) <= old(len(z.mant))
+
+//@ define ctx_binop_wf(c, z, x, y) = ctx_ok(c) && z != nil && valid(z) && z != x && z != y && opnd(x) && opnd(y) && sep(z, x) && sep(z, y) &&
+//@      x.prec <= 1000000000 && y.prec <= 1000000000 && len(x.mant) <= 10000000 && len(y.mant) <= 10000000 && len(z.mant) <= 10000000
+
+//@ func (c *Context) Add(z, x, y *decimal.Decimal) (r *decimal.Decimal)
+//@   requires[wf] ctx_binop_wf(c, z, x, y) && (x.form == finite && y.form == finite ==> gapok(x, y))
+//@   modifies c.err, z.mode, z.prec, z.acc, z.form, z.neg, z.exp, z.mant, memcap(z.mant)
+//@   ensures[result,C19] r == z
+//@   ensures[latched,C19] old(c.err) != nil ==> c.err == old(c.err) && unchanged(z)
+//@   ensures[nan,C19] old(c.err) == nil && old(x.form) == inf && old(y.form) == inf && old(x.neg) != old(y.neg) ==> isErrNaN(c.err)
+//@   ensures[ok,C19] old(c.err) == nil && !(old(x.form) == inf && old(y.form) == inf && old(x.neg) != old(y.neg)) ==> c.err == nil && z.prec == c.prec && z.mode == c.mode && valid(z)
+//@   ensures[operands,C09,C18] unchanged(x) && unchanged(y)
+
+//@ func (c *Context) Sub(z, x, y *decimal.Decimal) (r *decimal.Decimal)
+//@   requires[wf] ctx_binop_wf(c, z, x, y) && (x.form == finite && y.form == finite ==> gapok(x, y))
+//@   modifies c.err, z.mode, z.prec, z.acc, z.form, z.neg, z.exp, z.mant, memcap(z.mant)
+//@   ensures[result,C19] r == z
+//@   ensures[latched,C19] old(c.err) != nil ==> c.err == old(c.err) && unchanged(z)
+//@   ensures[nan,C19] old(c.err) == nil && old(x.form) == inf && old(y.form) == inf && old(x.neg) == old(y.neg) ==> isErrNaN(c.err)
+//@   ensures[ok,C19] old(c.err) == nil && !(old(x.form) == inf && old(y.form) == inf && old(x.neg) == old(y.neg)) ==> c.err == nil && z.prec == c.prec && z.mode == c.mode && valid(z)
+//@   ensures[operands,C09,C18] unchanged(x) && unchanged(y)
+
+//@ func (c *Context) Mul(z, x, y *decimal.Decimal) (r *decimal.Decimal)
+//@   requires[wf] ctx_binop_wf(c, z, x, y)
+//@   modifies c.err, z.mode, z.prec, z.acc, z.form, z.neg, z.exp, z.mant, memcap(z.mant)
+//@   ensures[result,C19] r == z
+//@   ensures[latched,C19] old(c.err) != nil ==> c.err == old(c.err) && unchanged(z)
+//@   ensures[nan,C19] old(c.err) == nil && ((old(x.form) == zero && old(y.form) == inf) || (old(x.form) == inf && old(y.form) == zero)) ==> isErrNaN(c.err)
+//@   ensures[ok,C19] old(c.err) == nil && !((old(x.form) == zero && old(y.form) == inf) || (old(x.form) == inf && old(y.form) == zero)) ==> c.err == nil && z.prec == c.prec && z.mode == c.mode && valid(z)
+//@   ensures[operands,C09,C18] unchanged(x) && unchanged(y)
+
+//@ func (c *Context) Quo(z, x, y *decimal.Decimal) (r *decimal.Decimal)
+//@   requires[wf] ctx_binop_wf(c, z, x, y)
+//@   modifies c.err, z.mode, z.prec, z.acc, z.form, z.neg, z.exp, z.mant, memcap(z.mant)
+//@   ensures[result,C19] r == z
+//@   ensures[latched,C19] old(c.err) != nil ==> c.err == old(c.err) && unchanged(z)
+//@   ensures[nan,C19] old(c.err) == nil && ((old(x.form) == zero && old(y.form) == zero) || (old(x.form) == inf && old(y.form) == inf)) ==> isErrNaN(c.err)
+//@   ensures[ok,C19] old(c.err) == nil && !((old(x.form) == zero && old(y.form) == zero) || (old(x.form) == inf && old(y.form) == inf)) ==> c.err == nil && z.prec == c.prec && z.mode == c.mode && valid(z)
+//@   ensures[operands,C09,C18] unchanged(x) && unchanged(y)
+
+//@ func (c *Context) Set(z, x *decimal.Decimal) *decimal.Decimal
+//@   requires[wf] ctx_ok(c) && z != nil && valid(z) && z != x && opnd(x) && sep(z, x) && len(x.mant) <= 10000000
+//@   modifies z.mode, z.prec, z.acc, z.form, z.neg, z.exp, z.mant, memcap(z.mant)
+//@   ensures[result,C19] result == z
+//@   ensures[latched,C19] c.err != nil ==> unchanged(z)
+//@   ensures[ok,C19] c.err == nil ==> z.prec == c.prec && z.mode == c.mode && valid(z) && z.neg == old(x.neg)
+//@   ensures[operands,C09,C18] unchanged(x)
+
+//@ func (c *Context) Neg(z, x *decimal.Decimal) *decimal.Decimal
+//@   requires[wf] ctx_ok(c) && z != nil && valid(z) && z != x && opnd(x) && sep(z, x) && len(x.mant) <= 10000000
+//@   modifies z.mode, z.prec, z.acc, z.form, z.neg, z.exp, z.mant, memcap(z.mant)
+//@   ensures[result,C19] result == z
+//@   ensures[latched,C19] c.err != nil ==> unchanged(z)
+//@   ensures[ok,C19] c.err == nil ==> z.prec == c.prec && z.mode == c.mode && valid(z) && z.neg == !old(x.neg)
+//@   ensures[operands,C09,C18] unchanged(x)
+
+//@ func (c *Context) Abs(z, x *decimal.Decimal) *decimal.Decimal
+//@   requires[wf] ctx_ok(c) && z != nil && valid(z) && z != x && opnd(x) && sep(z, x) && len(x.mant) <= 10000000
+//@   modifies z.mode, z.prec, z.acc, z.form, z.neg, z.exp, z.mant, memcap(z.mant)
+//@   ensures[result,C19] result == z
+//@   ensures[latched,C19] c.err != nil ==> unchanged(z)
+//@   ensures[ok,C19] c.err == nil ==> z.prec == c.prec && z.mode == c.mode && valid(z) && z.neg == false
+//@   ensures[operands,C09,C18] unchanged(x)
